@@ -170,6 +170,9 @@ class DiameterAssociation(object):
         self.transport.close()
         self.transport = None
 
+        #: Wakes up every application thread blocked in get_message().
+        self.postprocess_recv_messages_ready.set()
+
 
     def recv_message_from_queue(self) -> None:
         while not self._stop_threads and self.transport:
@@ -315,21 +318,22 @@ class DiameterAssociation(object):
 
 
     def get_postprocess_recv_message(self):
-        self.lock.acquire()
-        diameter_conn_logger.debug("Acquired DiameterAssociation lock")
-
+        #: Never blocks: it returns None when another consumer has been 
+        #: faster. No lock is held while a consumer waits for a message.
         self.postprocess_recv_messages_lock.acquire()
-        msg = self.postprocess_recv_messages.get()
+        try:
+            msg = self.postprocess_recv_messages.get_nowait()
+        except queue.Empty:
+            msg = None
+
+        if self.postprocess_recv_messages.empty() and not self._stop_threads:
+            self.postprocess_recv_messages_ready.clear()
+            diameter_conn_logger.debug("Cleared go ahead for "\
+                                       "postprocess_recv_messages_ready")
         self.postprocess_recv_messages_lock.release()
 
-        make_logging(msg)
-
-        self.postprocess_recv_messages_ready.clear()
-        diameter_conn_logger.debug("Cleared go ahead for "\
-                                   "postprocess_recv_messages_ready")
-
-        self.lock.release()
-        diameter_conn_logger.debug("Released DiameterAssociation lock")
+        if msg is not None:
+            make_logging(msg)
         return msg
 
 
@@ -342,8 +346,13 @@ class DiameterAssociation(object):
             else:
                 diameter_conn_logger.debug("No need to wait for go ahead for "\
                                            "postprocess_recv_messages_ready")
-    
-            return self.get_postprocess_recv_message()
+
+            if self._stop_threads:
+                break
+
+            msg = self.get_postprocess_recv_message()
+            if msg is not None:
+                return msg
 
 
     def tracking_events(self) -> None:
